@@ -21,24 +21,37 @@ from translate import c12_atomic
 
 MANIFEST = dict(
     technique='Rocq proof (small-step model of the writer protocol; invariant over all schedules, crash points and fault '
-              'patterns of two interleaved writers) + symbolic-execution translator of __exit__ + executed crash/fault/'
-              'interleaving enumeration on the real code compared with the model by vm_compute',
-    text='Theorems in Props/C12.v, for every configuration cfg read from the source with cfg_ok cfg = true: at every point '
-         'of every schedule of two writers (any crash point, any injected OSErrors) each destination holds its complete old '
-         'or complete new token list, new exactly after its replace succeeded; any OSError or body exception means the '
-         'writer never commits and the destination is unchanged; a finished writer leaves every temp name as it was unless '
-         'its cleanup unlink itself raised; two writers never hold the same temp name, commit exactly their own data and '
-         'touch nothing that existed before. The cfg (exclusive open with retry, close before replace, unlink on exception, '
-         'cleanup after failing close/replace) is regenerated from AtomicWriter.__exit__/make_tempfile by abstract '
-         'execution on every run and kernel-checked; the real AtomicWriter and BSP.save are run under file-system '
-         'interposition with a kill (os._exit in a forked child) before every operation, an OSError at every operation and '
-         'all interleavings of two writers, and traces/directories are compared with the model.',
-    note='Trusted: Coq kernel + vm_compute, translate/c12_atomic.py, the interposer in checks/c12.py (FileIO subclass + '
-         'patched io.open/os.*), POSIX rename atomicity and O_EXCL (modelled, not verified), page cache surviving a process '
-         'kill (no power-loss durability claimed). Contents are abstract write tokens in the model; the harness maps them '
-         'to bytes. An OSError raised by the cleanup unlink itself is excluded from "no temp file left" (no implementation '
+              'patterns of two interleaved writers; AtomicWriter.__exit__ transliterated into a statement language and '
+              'interpreted symbolically in the kernel into decision trees, with a proved refinement from the tree machine '
+              'to the flag machine) + executed crash/fault/interleaving enumeration on the real code compared with the '
+              'model by vm_compute',
+    text='Theorems in Props/C12.v, for every exit protocol x whose decision trees are in the modelled family with the good '
+         'flags (proto_ok x = true, discharged for the program generated from today\'s source by vm_compute): at every '
+         'point of every schedule of two writers (any crash point, any injected OSErrors) each destination holds its '
+         'complete old or complete new token list, new exactly after its rename succeeded; any OSError or body exception '
+         'means the writer never commits and the destination is unchanged; a finished writer leaves every temp name as it '
+         'was unless its cleanup unlink itself raised; two writers never hold the same temp name, commit exactly their own '
+         'data and touch nothing that existed before; two writers to the SAME destination leave old or one complete '
+         'content; the temp-name loop settles on the least free index and no interleaving makes an index exceed N+2 '
+         '(N = highest stale temp index); BSP.save = rebuild phase without file-system operations + one writer. '
+         'translate/c12_atomic.py transliterates __exit__ statement by statement (fail-closed) and reads the facts of '
+         'make_tempfile and BSP.save; the kernel computes the decision trees and 30 named obligations (order of close / '
+         'rename / unlink, no rename after a failing close or a body exception, every failure path unlinks, no exception '
+         'swallowed, loop shape, only AtomicWriter output in BSP.save). The real AtomicWriter and BSP.save (existing and '
+         'fresh destination, raising body, raising rebuild phase) are run under file-system interposition with a kill '
+         '(os._exit in a forked child) before every operation, an OSError at every operation, all interleavings / all '
+         'pairs of operation boundaries of two writers and an OSError at every operation of several schedules; traces, '
+         'directories, rename and raised/returned outcomes are compared with the tree machine of the generated program.',
+    note='Trusted: Coq kernel + vm_compute, translate/c12_atomic.py (transliteration only: the symbolic execution is in '
+         'the kernel and tied by the executed correspondence), the interposer in checks/c12.py (FileIO subclass + patched '
+         'io.open/os.*), POSIX rename atomicity and O_EXCL (modelled, not verified), page cache surviving a process kill '
+         '(no power-loss durability claimed). Contents are abstract write tokens in the model; the harness maps them to '
+         'bytes. An OSError raised by the cleanup unlink itself is excluded from "no temp file left" (no implementation '
          'can satisfy it); pathlib swallows an OSError from mkdir of an existing directory, so that fault is only injected '
-         'when the directory is created.',
+         'when the directory is created. Exit programs outside the five-flag family are modelled and compared but the '
+         'theorems do not apply to them (obligation exit_protocol_in_model_family). Buffering inside BufferedWriter/'
+         'TextIOWrapper, Path.mkdir internals and BSP lump serialisation are only exercised, not modelled; reuse of one '
+         'AtomicWriter for several with-blocks is not covered.',
 )
 
 IMPORTS = ['SV.SM.AtomicWriter', 'SV.SM.AtomicExit', 'SV.Gen.AtomicWriter_gen', 'Coq.Lists.List', 'Coq.Bool.Bool',
@@ -90,7 +103,9 @@ class FsSim:
 
     # -- helpers
     def wid(self) -> int:
-        return self.wids.get(threading.get_ident(), 0)
+        # with a scheduler, only registered writer threads take turns; anything else (e.g. a leaked handle closed by
+        # the garbage collector in the main thread) is recorded as writer -1 and never waits
+        return self.wids.get(threading.get_ident(), 0 if self.sched is None else -1)
 
     def rel(self, path: Any) -> str | None:
         try:
@@ -112,7 +127,7 @@ class FsSim:
         if not self.active:
             return {}
         w = self.wid()
-        if self.sched is not None:
+        if self.sched is not None and w >= 0:
             self.sched.wait_turn(w)
         with self.lock:
             self.n += 1
@@ -122,7 +137,7 @@ class FsSim:
             self.ops.append(rec)
         if self.crash_at is not None and k == self.crash_at + 1:
             os._exit(77)
-        if inj and self.fault_at == k:
+        if inj and (self.fault_at == k or (isinstance(self.fault_at, (set, frozenset)) and k in self.fault_at)):
             rec['res'] = 'fault'
             raise OSError(errno.EIO, 'injected fault', name)
         return rec
@@ -271,6 +286,8 @@ class Sched:
 
     def wait_turn(self, w: int) -> None:
         with self.cv:
+            if self.state[w] == 'done':
+                return      # an operation after the writer's `with` is over (a leaked handle being collected)
             self.state[w] = 'waiting'
             self.cv.notify_all()
             self.cv.wait_for(lambda: self.grant == w)
@@ -372,7 +389,7 @@ def bsp_break(b: Any, brk: str) -> None:
         raise ValueError(brk)
 
 
-def run_single(sc: dict, root: str, fault_at: int | None = None, crash_at: int | None = None) -> dict:
+def run_single(sc: dict, root: str, fault_at: Any = None, crash_at: int | None = None) -> dict:
     """Run one scenario on the real code. Returns ops, outcome and final listing (not in crash mode: the child dies)."""
     populate(root, sc)
     dest = os.path.join(root, sc['dest'])
@@ -777,6 +794,36 @@ def _single_scenario(ck0: Ck, work: Path, si: int, sc: dict, do_model: bool, cas
             fidx = [i for i, e in enumerate(evf or []) if e[3] == 3]
             add_case(len(r['ops']) + 5, fidx[:1], evf, lst, committed,
                      {'run': f'OSError at op {k} ({at})', 'scenario': sc_json(sc), 'why': whyf}, False)
+            # ---- a second OSError at every operation that follows the first one (the cleanup of the cleanup):
+            # exercises the second level of the decision trees (close fails AND unlink fails, rename fails AND ...)
+            if sc.get('bsp') and not escalated(ck):
+                continue
+            for o2 in [x for x in r['ops'] if x['k'] > k and x['inj']]:
+                k2 = o2['k']
+                r2 = run_single(sc, fresh('fault2'), fault_at=frozenset((k, k2)))
+                hit2 = [x for x in r2['ops'] if x['res'] == 'fault']
+                if len(hit2) < 2:
+                    continue
+                ck.count('double_fault_points_executed')
+                at2 = f'{at}+{op_label(o2)}'
+                ck.seen(('fault2', sc['kind'], sc.get('bufsize'), k, k2))
+                ck.hist('double_fault_ops', at2)
+                lst2 = r2['listing']
+                rp2 = replay_obj('fault', sc, k=[k, k2])
+                if r2['outcome'] == 'ok' or r2['outcome'].startswith('other'):
+                    ck.violation(f'unexpected-outcome-after-two-faults:{at2}', r2['outcome'], rp2)
+                if lst2.get(sc['dest']) != old:
+                    ck.violation('dest-named-like-temp-file' if patho else f'dest-changed-after-two-faults:{at2}',
+                                 f'OSErrors injected into operations {k} and {k2}; destination holds '
+                                 f'{lst2.get(sc["dest"])!r:.60} instead of the previous {old!r:.40}', rp2)
+                if (set(lst2) - init_names - {sc['dest']}) and not any(x['op'] == 'unlink' for x in hit2):
+                    ck.violation(f'temp-left-after-two-faults:{at2}', f'{sorted(set(lst2) - init_names - {sc["dest"]})} left', rp2)
+                for n0, v0 in sc['init'].items():
+                    if n0 != sc['dest'] and lst2.get(n0) != v0:
+                        ck.violation(f'foreign-file-touched-after-two-faults:{at2}', f'{n0} changed', rp2)
+                ev2, why2 = canon_events(r2['ops'], nm, wtok)
+                add_case(len(r2['ops']) + 5, [i for i, e in enumerate(ev2 or []) if e[3] == 3], ev2, lst2, False,
+                         {'run': f'OSErrors at ops {k} ({at}) and {k2}', 'scenario': sc_json(sc), 'why': why2}, False)
 
 
 def eval_cases(ck: Ck, cases: list[dict], tag: str) -> None:
@@ -1063,12 +1110,13 @@ def two_check(ck: Ck, P: Pair, r: dict, fault_at: int | None, do_model: bool, ca
 def two_writer_campaign(ck: Ck, do_model: bool) -> None:
     work = str(ck.scratch / 'c12_two')
     big = is_big(ck)
+    cap = (lambda n: n) if ck.thorough else (lambda n: min(n, 1000))     # a broken tie in the quick tier: capped DFS
     A1 = dict(dest='a.bin', chunks=[b'A1'])
     pairs = [
         # (pair, limit of the exhaustive DFS over schedules; 0 = only boundary pairs)
         (Pair('plain', A1, dict(dest='b.bin', chunks=[b'B1']), {'a.bin': b'OLDA', 'b.bin': b'OLDB', 'keep.txt': b'k'}), 5000),
         (Pair('stale+raise', A1, dict(dest='b.bin', chunks=[b'B1', b'B2'], raise_after=1),
-              {'a.bin': b'OLDA', 'tmp_1': b'STALE1', 'keep.txt': b'k'}), 5000 if big else 120),
+              {'a.bin': b'OLDA', 'tmp_1': b'STALE1', 'keep.txt': b'k'}), 5000 if big else 40),
         (Pair('two-chunks', dict(dest='a.bin', chunks=[b'A1', b'A2']), dict(dest='b.bin', chunks=[b'B1', b'B2']),
               {'a.bin': b'OLDA', 'b.bin': b'OLDB', 'tmp_2': b'STALE2'}), 6000 if big else 0),
         (Pair('fresh+stale-gap', dict(dest='a.bin', chunks=[b'A1', b'A2', b'A3']), dict(dest='b.bin', chunks=[]),
@@ -1083,6 +1131,7 @@ def two_writer_campaign(ck: Ck, do_model: bool) -> None:
         tag = P.tag
         seen_sched: set[tuple[int, ...]] = set()
         # ---- every interleaving (DFS over schedules), up to `limit` runs
+        limit = cap(limit)
         stack: list[list[int]] = [[]] if limit else []
         nrun = 0
         while stack and nrun < limit:
@@ -1162,8 +1211,10 @@ def eval_cases2(ck: Ck, cases: list[dict]) -> None:
             diffs = []
             if c['events'] is None or events != c['events']:
                 diffs.append({'events_model': events, 'events_real': c['events']})
-            if [(pc1[0] == 1), (pc2[0] == 1)] != c['committed'] or [(pc1[2] == 0), (pc2[2] == 0)] != c['committed']:
-                diffs.append({'model_pcs': [pc1, pc2], 'real_returned_normally': c['committed']})
+            replaced = [any(e[0] == w and e[1] == 4 and e[4] == 0 for e in (c['events'] or [])) for w in (0, 1)]
+            if [(pc1[0] == 1), (pc2[0] == 1)] != replaced or [(pc1[2] == 0), (pc2[2] == 0)] != c['committed']:
+                diffs.append({'model_pcs': [pc1, pc2], 'real_rename_succeeded': replaced,
+                              'real_returned_normally': c['committed']})
             for b, enc in zip(nm.probe_bases(c['max_tmp']), probes):
                 toks = opt_content(enc)
                 real = c['listing'].get(b)
@@ -1188,15 +1239,19 @@ def eval_cases2(ck: Ck, cases: list[dict]) -> None:
 def run(ck: Ck) -> None:
     ck.level = 'proof'
     ck.extra['secondary_level'] = 'fault_enumeration (every kill point, every single OSError, every interleaving, executed)'
-    ck.rule = ('scenario = (destination old/new/nested/named like a temp file, stale tmp_N files, chunk list, buffer size '
-               '1/small/8192, bytes or text, body raising after j writes, BSP.save of a cut-down real map). For each scenario '
-               'the real code is run fault-free, then killed (os._exit in a forked child) after k operations for EVERY k, '
-               'then with one OSError injected at EVERY injectable raw operation (mkdir, open, write, flush-write, close, '
-               'replace, unlink); two writers are run under EVERY interleaving of their operations (DFS over schedules). '
-               'A case is distinct by (scenario kind, buffer size, kill/fault index) or by the full schedule; all are '
-               'non-trivial (each changes where the protocol is interrupted).')
-    ck.trusted.append('hand-written model SM/AtomicWriter.v (tied by the translator-generated cfg and by the executed '
-                      'crash/fault/interleaving correspondence on every run)')
+    ck.rule = ('scenario = (destination old/new/nested/named like a temp file, stale tmp_N files (none, gaps, 1..12 / 1..60), '
+               'chunk list, buffer size 1/small/8192, bytes or text, body raising after j writes, BSP.save of a cut-down real '
+               'map onto an existing / fresh path / new directory, with a lump that makes the body raise mid-way, without a '
+               'version, with a rebuild phase that raises). For each scenario the real code is run fault-free, then killed '
+               '(os._exit in a forked child) after k operations for EVERY k, then with one OSError injected at EVERY '
+               'injectable raw operation (mkdir, open, write, flush-write, close, replace, unlink); two writers (six pairs, '
+               'one with a shared destination) are run under EVERY interleaving (DFS over schedules) or at every pair of '
+               'operation boundaries (A^k1 B^k2 and B^k2 A^k1), and with one OSError at every operation of 3-6 schedules. '
+               'A case is distinct by (scenario kind, buffer size, kill/fault index), by the full schedule, or by '
+               '(pair, schedule, fault index); all are non-trivial (each changes where the protocol is interrupted).')
+    ck.trusted.append('hand-written machines SM/AtomicWriter.v (flags) and SM/AtomicExit.v (decision trees + interpreter of '
+                      'the generated __exit__ program), tied by the proved refinement, by the kernel-computed obligations on '
+                      'the generated program and by the executed crash/fault/interleaving correspondence on every run')
     ck.trusted.append('checks/c12.py interposer: io.FileIO subclass under the BufferedWriter/TextIOWrapper, patched io.open / '
                       'os.mkdir / os.unlink / os.replace; POSIX rename atomicity and O_EXCL are assumed, not verified')
     ck.assumptions += [
@@ -1349,7 +1404,8 @@ def replay(data: dict) -> int:
                 rc, lst = run_crash(sc, os.path.join(root, 'd'), r['k'])
                 print(f'killed after {r["k"]} operations (child exit {rc})')
             else:
-                res = run_single(sc, os.path.join(root, 'd'), fault_at=r['k'])
+                res = run_single(sc, os.path.join(root, 'd'),
+                                 fault_at=frozenset(r['k']) if isinstance(r['k'], list) else r['k'])
                 lst = res['listing']
                 print('operations:', [(o['op'], o['name'], o['res']) for o in res['ops']])
                 print('outcome:', res['outcome'])
